@@ -343,10 +343,10 @@ func runTcpWire(c *TcpCase, res *TcpResult) {
 // ---------------------------------------------------------------- bootstrap over real TCP (C13)
 
 type tcpProbe struct {
-	mu        sync.Mutex
-	active    map[netty.Channel]int
-	inactive  map[netty.Channel]int
-	chans     []netty.Channel
+	mu       sync.Mutex
+	active   map[netty.Channel]int
+	inactive map[netty.Channel]int
+	chans    []netty.Channel
 }
 
 func (p *tcpProbe) HandleActive(ctx netty.ActiveContext) {
